@@ -1369,6 +1369,7 @@ def parse(expression, variables, indices, arg_shapes={}, default_geometry_name='
     if indices is None:
         try:
             value = parser.parse_subexpression(True)
+            parser._consume_assert_equal('EOF', msg='Unexpected symbol at end of expression.')
             return value.ast, arg_shapes
         except ExpressionSyntaxError:
             pass
